@@ -26,6 +26,23 @@ type wpBlock struct {
 	table   [][]wpCell
 	via     int // heading: 0 built-in style id HeadingN, 1 custom style based on HeadingN, 2 style with outline level only
 	listID  int // which list (numId)
+	rawDocx string // when set: the paragraph's inline XML, used instead of inl
+	rawOdt  string
+	useRaw  bool
+}
+
+func (b wpBlock) docxInner() string {
+	if b.useRaw {
+		return b.rawDocx
+	}
+	return docxRuns(b.inl)
+}
+
+func (b wpBlock) odtInner() string {
+	if b.useRaw {
+		return b.rawOdt
+	}
+	return odtInline(b.inl)
 }
 
 func wpText(b wpBlock) string {
@@ -80,11 +97,11 @@ func mkDOCXBlocks(blocks []wpBlock, header, footer string) []zipMember {
 	for _, b := range blocks {
 		switch b.kind {
 		case 0:
-			fmt.Fprintf(&d, `<w:p>%s</w:p>`, docxRuns(b.inl))
+			fmt.Fprintf(&d, `<w:p>%s</w:p>`, b.docxInner())
 		case 1:
-			fmt.Fprintf(&d, `<w:p><w:pPr><w:pStyle w:val="%s"/></w:pPr>%s</w:p>`, docxHeadingStyle(b.level, b.via), docxRuns(b.inl))
+			fmt.Fprintf(&d, `<w:p><w:pPr><w:pStyle w:val="%s"/></w:pPr>%s</w:p>`, docxHeadingStyle(b.level, b.via), b.docxInner())
 		case 2:
-			fmt.Fprintf(&d, `<w:p><w:pPr><w:pStyle w:val="ListParagraph"/><w:numPr><w:ilvl w:val="%d"/><w:numId w:val="%d"/></w:numPr></w:pPr>%s</w:p>`, b.level, b.listID, docxRuns(b.inl))
+			fmt.Fprintf(&d, `<w:p><w:pPr><w:pStyle w:val="ListParagraph"/><w:numPr><w:ilvl w:val="%d"/><w:numId w:val="%d"/></w:numPr></w:pPr>%s</w:p>`, b.level, b.listID, b.docxInner())
 		case 3:
 			d.WriteString(`<w:tbl><w:tblPr><w:tblW w:w="0" w:type="auto"/></w:tblPr><w:tblGrid>`)
 			cols := 0
@@ -214,7 +231,10 @@ func odtInline(inl []wpInline) string {
 }
 
 // mkODTBlocks writes an ODT package with the same block model.
-func mkODTBlocks(blocks []wpBlock) []zipMember {
+func mkODTBlocks(blocks []wpBlock) []zipMember { return mkODTBlocksHF(blocks, "", "") }
+
+// mkODTBlocksHF also declares a master page with header and footer text.
+func mkODTBlocksHF(blocks []wpBlock, header, footer string) []zipMember {
 	var d strings.Builder
 	d.WriteString(`<?xml version="1.0" encoding="UTF-8"?><office:document-content xmlns:office="urn:oasis:names:tc:opendocument:xmlns:office:1.0" xmlns:text="urn:oasis:names:tc:opendocument:xmlns:text:1.0" xmlns:table="urn:oasis:names:tc:opendocument:xmlns:table:1.0" xmlns:xlink="http://www.w3.org/1999/xlink" xmlns:style="urn:oasis:names:tc:opendocument:xmlns:style:1.0" office:version="1.2"><office:automatic-styles><style:style style:name="T1" style:family="text"/></office:automatic-styles><office:body><office:text>`)
 	i := 0
@@ -222,10 +242,10 @@ func mkODTBlocks(blocks []wpBlock) []zipMember {
 		b := blocks[i]
 		switch b.kind {
 		case 0:
-			fmt.Fprintf(&d, `<text:p text:style-name="Standard">%s</text:p>`, odtInline(b.inl))
+			fmt.Fprintf(&d, `<text:p text:style-name="Standard">%s</text:p>`, b.odtInner())
 			i++
 		case 1:
-			fmt.Fprintf(&d, `<text:h text:style-name="Heading_20_%d" text:outline-level="%d">%s</text:h>`, b.level, b.level, odtInline(b.inl))
+			fmt.Fprintf(&d, `<text:h text:style-name="Heading_20_%d" text:outline-level="%d">%s</text:h>`, b.level, b.level, b.odtInner())
 			i++
 		case 2:
 			// a run of list items of the same list: nested text:list by level
@@ -239,7 +259,7 @@ func mkODTBlocks(blocks []wpBlock) []zipMember {
 				fmt.Fprintf(&d, `<text:list text:style-name="L%d">`, b.listID)
 				for k < len(items) && items[k].level >= level {
 					if items[k].level == level {
-						fmt.Fprintf(&d, `<text:list-item><text:p>%s</text:p>`, odtInline(items[k].inl))
+						fmt.Fprintf(&d, `<text:list-item><text:p>%s</text:p>`, items[k].odtInner())
 						k++
 						if k < len(items) && items[k].level > level {
 							k = emit(k, level+1)
@@ -311,7 +331,18 @@ func mkODTBlocks(blocks []wpBlock) []zipMember {
 		}
 		st.WriteString(`</text:list-style>`)
 	}
-	st.WriteString(`</office:styles></office:document-styles>`)
+	st.WriteString(`</office:styles>`)
+	if header != "" || footer != "" {
+		st.WriteString(`<office:master-styles><style:master-page style:name="Standard">`)
+		if header != "" {
+			st.WriteString(`<style:header><text:p>` + xmlEsc(header) + `</text:p></style:header>`)
+		}
+		if footer != "" {
+			st.WriteString(`<style:footer><text:p>` + xmlEsc(footer) + `</text:p></style:footer>`)
+		}
+		st.WriteString(`</style:master-page></office:master-styles>`)
+	}
+	st.WriteString(`</office:document-styles>`)
 	return []zipMember{
 		{Name: "mimetype", Data: []byte("application/vnd.oasis.opendocument.text"), Store: true},
 		{Name: "META-INF/manifest.xml", Data: []byte(`<?xml version="1.0" encoding="UTF-8"?><manifest:manifest xmlns:manifest="urn:oasis:names:tc:opendocument:xmlns:manifest:1.0"><manifest:file-entry manifest:full-path="/" manifest:media-type="application/vnd.oasis.opendocument.text"/><manifest:file-entry manifest:full-path="content.xml" manifest:media-type="text/xml"/><manifest:file-entry manifest:full-path="styles.xml" manifest:media-type="text/xml"/></manifest:manifest>`)},
